@@ -61,8 +61,11 @@ theorem quiet_nrDone (x : Th) : quiet (nrDone x).pc = true := by
   unfold nrDone; split
   · exact quiet_tsOk x
   · rfl
-theorem quiet_finDone (x : Th) : quiet (finDone x).pc = true := by
-  unfold finDone retWith; repeat' split
+theorem quiet_finDoneS (x : Th) : quiet (finDoneS x).pc = true := by
+  unfold finDoneS retWith; repeat' split
+  all_goals rfl
+theorem quiet_finDoneR (x : Th) : quiet (finDoneR x).pc = true := by
+  unfold finDoneR retWith; repeat' split
   all_goals rfl
 theorem quiet_deqDone (x : Th) : quiet (deqDone x).pc = true := by
   unfold deqDone retWith flushCall retPending; repeat' split
@@ -77,7 +80,8 @@ theorem quiet_probeDone (c : Cfg) (x : Th) (d : Nat) : quiet (probeDone c x d).p
   unfold probeDone retWith; repeat' split
   all_goals rfl
 theorem quiet_pollEntry (x : Th) : quiet (pollEntry x).pc = true := by
-  unfold pollEntry; split <;> rfl
+  unfold pollEntry retWith; repeat' split
+  all_goals rfl
 theorem quiet_pubDone (x : Th) : quiet (pubDone x).pc = true := by unfold pubDone; split <;> rfl
 theorem quiet_callTh (c : Cfg) (s : State) (x x0 : Th) (op : Op) : quiet (callTh c s x x0 op).pc = true := by
   cases op <;> simp only [callTh, retWith, deqCall] <;> (repeat' split) <;> rfl
@@ -108,8 +112,10 @@ theorem claimOf_chkOpen (x : Th) : claimOf (chkOpen x) = none := claimOf_quiet (
 theorem phOf_chkOpen (x : Th) : phOf (chkOpen x) = .other := phOf_quiet (quiet_chkOpen x)
 theorem claimOf_nrDone (x : Th) : claimOf (nrDone x) = none := claimOf_quiet (quiet_nrDone x)
 theorem phOf_nrDone (x : Th) : phOf (nrDone x) = .other := phOf_quiet (quiet_nrDone x)
-theorem claimOf_finDone (x : Th) : claimOf (finDone x) = none := claimOf_quiet (quiet_finDone x)
-theorem phOf_finDone (x : Th) : phOf (finDone x) = .other := phOf_quiet (quiet_finDone x)
+theorem claimOf_finDoneS (x : Th) : claimOf (finDoneS x) = none := claimOf_quiet (quiet_finDoneS x)
+theorem claimOf_finDoneR (x : Th) : claimOf (finDoneR x) = none := claimOf_quiet (quiet_finDoneR x)
+theorem phOf_finDoneS (x : Th) : phOf (finDoneS x) = .other := phOf_quiet (quiet_finDoneS x)
+theorem phOf_finDoneR (x : Th) : phOf (finDoneR x) = .other := phOf_quiet (quiet_finDoneR x)
 theorem claimOf_deqDone (x : Th) : claimOf (deqDone x) = none := claimOf_quiet (quiet_deqDone x)
 theorem phOf_deqDone (x : Th) : phOf (deqDone x) = .other := phOf_quiet (quiet_deqDone x)
 theorem claimOf_scDone (x : Th) (n : Nat) : claimOf (scDone x n) = none := claimOf_quiet (quiet_scDone x n)
@@ -126,7 +132,7 @@ theorem claimOf_callTh (c : Cfg) (s : State) (x x0 : Th) (op : Op) : claimOf (ca
 theorem phOf_callTh (c : Cfg) (s : State) (x x0 : Th) (op : Op) : phOf (callTh c s x x0 op) = .other := phOf_quiet (quiet_callTh c s x x0 op)
 
 /-- rewrite `claimOf` / `phOf` of every continuation function -/
-macro "quiet_simp" : tactic => `(tactic| simp only [upd_same, claimOf_retWith, phOf_retWith, claimOf_retPending, phOf_retPending, claimOf_tsCall, phOf_tsCall, claimOf_enterLoop, phOf_enterLoop, claimOf_parkSeqS, phOf_parkSeqS, claimOf_parkSeqR, phOf_parkSeqR, claimOf_deqCall, phOf_deqCall, claimOf_flushCall, phOf_flushCall, claimOf_tsErr, phOf_tsErr, claimOf_tsOk, phOf_tsOk, claimOf_chkClosed, phOf_chkClosed, claimOf_chkOpen, phOf_chkOpen, claimOf_nrDone, phOf_nrDone, claimOf_finDone, phOf_finDone, claimOf_deqDone, phOf_deqDone, claimOf_scDone, phOf_scDone, claimOf_flushDone, phOf_flushDone, claimOf_probeDone, phOf_probeDone, claimOf_pollEntry, phOf_pollEntry, claimOf_pubDone, phOf_pubDone, claimOf_callTh, phOf_callTh])
+macro "quiet_simp" : tactic => `(tactic| simp only [upd_same, claimOf_retWith, phOf_retWith, claimOf_retPending, phOf_retPending, claimOf_tsCall, phOf_tsCall, claimOf_enterLoop, phOf_enterLoop, claimOf_parkSeqS, phOf_parkSeqS, claimOf_parkSeqR, phOf_parkSeqR, claimOf_deqCall, phOf_deqCall, claimOf_flushCall, phOf_flushCall, claimOf_tsErr, phOf_tsErr, claimOf_tsOk, phOf_tsOk, claimOf_chkClosed, phOf_chkClosed, claimOf_chkOpen, phOf_chkOpen, claimOf_nrDone, phOf_nrDone, claimOf_finDoneS, claimOf_finDoneR, phOf_finDoneS, phOf_finDoneR, claimOf_deqDone, phOf_deqDone, claimOf_scDone, phOf_scDone, claimOf_flushDone, phOf_flushDone, claimOf_probeDone, phOf_probeDone, claimOf_pollEntry, phOf_pollEntry, claimOf_pubDone, phOf_pubDone, claimOf_callTh, phOf_callTh])
 
 /-- A step that changes no core field, keeps the head mutex, and moves the thread between pcs
 with the same claim / phase leaves the projection unchanged. -/
@@ -399,7 +405,7 @@ theorem sim_fUnlock {c s t a s'} (hL : LInv s) (hpc : (s.th t).pc = .fUnlock) (h
 section Main
 attribute [local simp] quiet_retWith quiet_retPending quiet_tsCall quiet_enterLoop
   quiet_parkSeqS quiet_parkSeqR quiet_deqCall quiet_flushCall quiet_tsErr quiet_tsOk quiet_chkClosed quiet_chkOpen
-  quiet_nrDone quiet_finDone quiet_deqDone quiet_scDone quiet_flushDone quiet_probeDone quiet_pollEntry
+  quiet_nrDone quiet_finDoneS quiet_finDoneR quiet_deqDone quiet_scDone quiet_flushDone quiet_probeDone quiet_pollEntry
   quiet_pubDone quiet_callTh
 
 set_option maxHeartbeats 4000000 in
